@@ -259,6 +259,7 @@ Proof.
   - unfold cc_grant. cbn. rewrite H. reflexivity.
   - unfold code_grant. cbn. rewrite H. reflexivity.
   - unfold refresh_grant. cbn. rewrite H. reflexivity.
+  - unfold jwt_bearer_grant. cbn. rewrite H. reflexivity.
   - unfold ciba_grant. cbn. rewrite H. reflexivity.
 Qed.
 
